@@ -856,7 +856,7 @@ func main() {
 	runner.Main(runner.Spec{
 		ID:    "C14",
 		Level: "fault_enumeration",
-		Rule: "round trip: every circuit with <=3 inputs and <=2 gates (thorough <=3 gates) x both formats, 40-gate chains per op, compiled programs with array/struct/compound I/O, synthetic names of 0..70000 bytes (header strings straddling bufio's 4096-byte buffer) and up to 400 compound members; " +
+		Rule: "round trip: every circuit with <=3 inputs and <=2 gates (thorough <=3 gates) x both formats, 40-gate chains per op, compiled programs with array/struct/compound I/O, synthetic names of 0..70000 bytes (header strings straddling bufio's 4096-byte buffer) and up to 400 compound members, size-instantiated ([]byte, []int32, unsized uint) and nested signatures (arrays of arrays, arrays of structs, nested structs, 130-bit integers) with the signature compared down to array sizes and element types and IOArg.Parse/Set compared on both circuits; " +
 			"malformed: for each seed file EVERY truncation length, EVERY single-bit flip, EVERY one-byte deletion and duplication, appended gate records and 1..13 junk bytes, every byte offset as a u32 field set to {0,1,n-1,n+1,10^6} (mpclc), every token replaced by 9 values and every line deleted/duplicated (Bristol); inputs whose declared sizes exceed 10^6 are skipped by a tolerant pre-scan. distinct_nontrivial = distinct (format, seed, mutation) fed to the parser + distinct round-trip circuits",
 		Assumptions: []string{
 			"well-formedness oracle: len(Gates)==NumGates, wire ids < NumWires, every gate input defined earlier (input wire or earlier gate output), every wire assigned",
